@@ -100,8 +100,12 @@ def do_nx(world, rep, op):
     args = [materialise(a) for a in op.get('args', [])]
     kwargs = {k: materialise(v) for k, v in (op.get('kwargs') or {}).items()}
     lo, hi = oracles.window(m)
-    pre = obs.full(g, lo, hi)
-    pre_bad = inconsistency(rep, lo, hi) if op['mode'] == 'any' else None
+    # outside the C19 focus a clear() is only a way to wipe the graph in the middle of a history: no
+    # observation is made around it (reads refresh caches and would mask stale ones)
+    light = op['mode'] == 'any' and world.focus != 'C19'
+    pre = None if light else obs.full(g, lo, hi)
+    judge = op['mode'] == 'any' and world.focus == 'C19'     # elsewhere the focus' own oracles judge the state
+    pre_bad = inconsistency(rep, lo, hi) if judge else None
     if name.startswith('dn.'):
         fn = getattr(dn, name[3:])
         if op.get('pass_graph', True):
@@ -116,7 +120,7 @@ def do_nx(world, rep, op):
     if st == 'ok' and op.get('consume'):
         st, r = call(lambda: list(r) if hasattr(r, '__iter__') else r)
     out = 'ok' if st == 'ok' else exc_class(r)
-    post = obs.full(g, lo, hi)
+    post = None if light else obs.full(g, lo, hi)
     world.evals += 1
     mode = op['mode']
     if mode == 'blocked' and m.frozen and not name.startswith('dn.') and 'edges_iter' not in name and name not in ('in_edges', 'out_edges'):
@@ -160,16 +164,18 @@ def do_nx(world, rep, op):
             m.clear(nodes_too=True)
         elif name == 'clear_edges':
             m.clear(nodes_too=False)
-    elif name in ('clear', 'clear_edges'):
+    elif name in ('clear', 'clear_edges') and not light:
         d = obs.diff(pre, post)
         if d:
             raise Violation('C19.any', 'rejected-clear-changed-state:' + ','.join(d), {'op': op})
+    if light:
+        return {'out': out, 'fault': out != 'ok', 'cls': 'nx-any', 'keys': []}
     bad = adjacency_has_timelines(g)
     if bad:
         raise Violation('C19.any', 'adjacency-entry-without-timeline', {'op': op, 'pair': repr(bad)})
     # "...or the stream out of step with presence": timelines, snapshot index and stream must still agree
     # with the presence relation after the call - judged only if they did before it
-    if pre_bad is None:
+    if judge and pre_bad is None:
         lo2, hi2 = oracles.window(m)
         post_bad = inconsistency(rep, lo2, hi2)
         if post_bad:
